@@ -42,11 +42,15 @@ deriving Repr, DecidableEq
 /-- `Parameter()`. -/
 def Param.dflt : Param := ⟨0, none, none, false⟩
 
-/-- `FitData`: name, `transformations` (ordered: model parameter → target) and the number of data points. -/
+/-- `FitData`: name, `transformations` (ordered: model parameter → target), the number of data points, and the
+    samples it HOLDS (`FitData.x`, `FitData.y`) as the bit patterns of their doubles — opaque to the bookkeeping; what
+    matters is that they are VALUES of the dataset: no later action of the user can reach them. -/
 structure Data where
   name : String
   trans : List (String × Target)
   npoints : Nat
+  x : List Nat
+  y : List Nat
 deriving Repr, DecidableEq
 
 /-- A `Model` (its ordered `_params`: name → default or `None`) with its `Datasets`. -/
@@ -326,11 +330,18 @@ def countValid : List Bool → List Bool → Nat
   | a :: as, b :: bs => (if a || b then 0 else 1) + countValid as bs
   | _, _ => 0
 
+/-- `v[filter_nan]` with `filter_nan = ~(isnan(x) | isnan(y))`: the boolean-mask selection builds a NEW array of
+    the samples of the valid pairs, in order. -/
+def keepValid {α} : List Bool → List Bool → List α → List α
+  | a :: as, b :: bs, v :: vs => if a || b then keepValid as bs vs else v :: keepValid as bs vs
+  | _, _, _ => []
+
 /-- `fit[model].add_data(name, …, params=ov)` (`Datasets._add_data`): duplicate name → `KeyError`, unequal lengths →
     `ValueError`, then `built = False`, then `parse_transformation` (unknown key → `KeyError`, the dataset is not
-    added), else the dataset is appended; NaN pairs are dropped. -/
-def Fit.addData (F : Fit) (mi : Nat) (name : String) (ov : List (String × Target)) (nanx nany : List Bool) :
-    Fit × Option Err :=
+    added), else the dataset is appended; NaN pairs are dropped.  `xs`, `ys`: the samples handed over (bit patterns;
+    the entry of a NaN is irrelevant); the dataset holds its own copy of the valid ones. -/
+def Fit.addData (F : Fit) (mi : Nat) (name : String) (ov : List (String × Target)) (nanx nany : List Bool)
+    (xs ys : List Nat := []) : Fit × Option Err :=
   match F.models[mi]? with
   | none => (F, some .KeyError)
   | some m =>
@@ -340,7 +351,8 @@ def Fit.addData (F : Fit) (mi : Nat) (name : String) (ov : List (String × Targe
       match parseTransformation (m.params.map (·.1)) ov with
       | none => ({ F with models := F.models.set mi { m with built := false } }, some .KeyError)
       | some tr =>
-        let m' : ModelData := { m with built := false, data := m.data ++ [⟨name, tr, countValid nanx nany⟩] }
+        let m' : ModelData := { m with built := false, data := m.data ++
+          [⟨name, tr, countValid nanx nany, keepValid nanx nany xs, keepValid nanx nany ys⟩] }
         ({ F with models := F.models.set mi m' }, none)
 
 /-! ### protocol -/
@@ -371,8 +383,9 @@ def showOptRatE : Option Rat → String
 
 /-- The observation of a query: the parameter table, for every model and dataset (insertion order) the local
     vector by the index route (`Condition.get_local_params` of the dataset's condition) and by the name route
-    (`FitData.get_params`), and the length of the residual vector the fit evaluates (`Fit._calculate_residual`
-    allocates `n_residuals` entries: one per valid data point of every dataset of every model). -/
+    (`FitData.get_params`), the samples every dataset holds (`fit[model].data[name].x / .y`), and the length of the
+    residual vector the fit evaluates (`Fit._calculate_residual` allocates `n_residuals` entries: one per valid data
+    point of every dataset of every model). -/
 def Fit.observe (repaired : Bool) (F : Fit) : String :=
   let uniq := F.table.map (·.1)
   let g := F.values
@@ -382,10 +395,14 @@ def Fit.observe (repaired : Bool) (F : Fit) : String :=
       showStr d.name ++ "=" ++ (match byIdx.lookup d.name with
         | some v => showRatList v
         | none => "missing") ++ "=" ++ showList showOptRatE (getParams d F.table)) ++ "}"
-  "T" ++ showList showParam F.table ++ " L" ++ "".intercalate perModel ++ " R" ++ toString F.nResiduals
+  let perData := F.models.map fun m =>
+    "{" ++ " ".intercalate (m.data.map fun d =>
+      showStr d.name ++ "=" ++ showNatList d.x ++ "=" ++ showNatList d.y) ++ "}"
+  "T" ++ showList showParam F.table ++ " L" ++ "".intercalate perModel ++ " D" ++ "".intercalate perData ++
+    " R" ++ toString F.nResiduals
 
 inductive Action where
-  | add (mi : Nat) (name : String) (ov : List (String × Target)) (nanx nany : List Bool)
+  | add (mi : Nat) (name : String) (ov : List (String × Target)) (nanx nany : List Bool) (xs ys : List Nat)
   | set (name : String) (f : Field)
   | fit (o : OptOut)
   | query
@@ -413,7 +430,7 @@ def Fit.jacRow (F : Fit) (mi : Nat) (name : String) (sens : List Rat) : Option (
   some (scatterRow cd.1 zero sens, scatterRowSum cd.1 zero sens)
 
 def step (repaired : Bool) (F : Fit) : Action → Fit × String
-  | .add mi name ov nx ny => let r := F.addData mi name ov nx ny; (r.1, "add:" ++ showErr r.2)
+  | .add mi name ov nx ny xs ys => let r := F.addData mi name ov nx ny xs ys; (r.1, "add:" ++ showErr r.2)
   | .set name f => let r := F.setField repaired name f; (r.1, "set:" ++ showErr r.2)
   | .fit o => let r := F.fit repaired (fun _ _ _ => o); (r.1, showFitOutcome r.2)
   | .query => let F' := F.rebuild repaired; (F', F'.observe repaired)
@@ -426,6 +443,11 @@ def step (repaired : Bool) (F : Fit) : Action → Fit × String
 def run (repaired : Bool) (F : Fit) : List Action → List String
   | [] => []
   | a :: as => let r := step repaired F a; r.2 :: run repaired r.1 as
+
+/-- the fit object after a script of actions (the state `run` threads through) -/
+def exec (repaired : Bool) (F : Fit) : List Action → Fit
+  | [] => F
+  | a :: as => exec repaired (step repaired F a).1 as
 
 /-! parsing of one op line -/
 
@@ -480,9 +502,10 @@ def action? : List String → Option (Action × List String)
     let mi ← nat? mi; let name ← str? name; let nov ← nat? nov
     let (ov, rest) ← overrides? nov rest
     match rest with
-    | nx :: ny :: rest => do
+    | nx :: ny :: xs :: ys :: rest => do
       let nx ← listOf? bool? nx; let ny ← listOf? bool? ny
-      some (.add mi name ov nx ny, rest)
+      let xs ← natList? xs; let ys ← natList? ys
+      some (.add mi name ov nx ny xs ys, rest)
     | _ => none
   | "S" :: name :: rest => do
     let name ← str? name
@@ -506,7 +529,7 @@ def actions? : Nat → List String → Option (List Action)
 
 /- ops:
   `c14.run <nmodels> {M <nparams> {<name> (N | P value lb ub fixed)}} <actions…>`
-     actions: `A mi dsname nov {key (n name | c value repr)} [nan-x] [nan-y]` | `S name (v|l|u|f) x` |
+     actions: `A mi dsname nov {key (n name | c value repr)} [nan-x] [nan-y] [x bits] [y bits]` | `S name (v|l|u|f) x` |
               `F ok [x…]` | `F err Name` | `Q` | `J mi dsname [sens…]`
      answers the observations of all actions joined by `;`; when the repaired variant (aligned defaults in
      `_build_fit`, condition groups keyed by the target lists) would answer differently, that answer follows after
